@@ -112,29 +112,41 @@ fn parse_bytes(j: &Value) -> R<Vec<u8>> {
     }
     j.as_str().map(|s| s.as_bytes().to_vec()).ok_or_else(|| "bytes".into())
 }
+/// a u64 / usize of any size: an integer below 2^62 as it is, a larger one as [hi, lo] = hi * 2^32 + lo
+fn big_json(n: u64) -> Value {
+    if n < 1 << 62 { json!(n) } else { json!([n >> 32, n & 0xffff_ffff]) }
+}
+fn parse_big(v: &Value) -> R<u64> {
+    if let Some(n) = v.as_u64() {
+        return if n < 1 << 62 { Ok(n) } else { Err("big".into()) };
+    }
+    let a = v.as_array().filter(|a| a.len() == 2).ok_or("big")?;
+    let hi = a[0].as_u64().filter(|x| *x < 1 << 32).ok_or("big hi")?;
+    let lo = a[1].as_u64().filter(|x| *x < 1 << 32).ok_or("big lo")?;
+    Ok((hi << 32) | lo)
+}
 fn policy_json(p: &CheckpointPolicy) -> Value {
     match p {
         CheckpointPolicy::AfterEveryBarrier => json!(["barrier"]),
-        CheckpointPolicy::EveryNNodes(n) => json!(["every", n]),
-        CheckpointPolicy::TimeInterval(s) => json!(["time", s]),
-        CheckpointPolicy::Hybrid { barriers, interval_secs } => json!(["hybrid", barriers, interval_secs]),
+        CheckpointPolicy::EveryNNodes(n) => json!(["every", big_json(*n as u64)]),
+        CheckpointPolicy::TimeInterval(s) => json!(["time", big_json(*s)]),
+        CheckpointPolicy::Hybrid { barriers, interval_secs } => json!(["hybrid", barriers, big_json(*interval_secs)]),
     }
 }
+/// 0 or at least an hour, up to u64::MAX (anything in between would depend on the wall clock)
 fn secs_ok(s: u64) -> R<u64> {
-    if s == 0 || (3600..(1u64 << 40)).contains(&s) { Ok(s) } else { Err("secs".into()) }
+    if s == 0 || s >= 3600 { Ok(s) } else { Err("secs".into()) }
 }
 fn parse_policy(j: &Value) -> R<CheckpointPolicy> {
     let a = j.as_array().ok_or("policy")?;
     let tag = a.first().and_then(Value::as_str).ok_or("policy tag")?;
     Ok(match (tag, a.len()) {
         ("barrier", 1) => CheckpointPolicy::AfterEveryBarrier,
-        ("every", 2) => CheckpointPolicy::EveryNNodes(
-            a[1].as_u64().filter(|n| *n < 1 << 40).ok_or("every")? as usize,
-        ),
-        ("time", 2) => CheckpointPolicy::TimeInterval(secs_ok(a[1].as_u64().ok_or("time")?)?),
+        ("every", 2) => CheckpointPolicy::EveryNNodes(parse_big(&a[1])? as usize),
+        ("time", 2) => CheckpointPolicy::TimeInterval(secs_ok(parse_big(&a[1])?)?),
         ("hybrid", 3) => CheckpointPolicy::Hybrid {
             barriers: a[1].as_bool().ok_or("hybrid")?,
-            interval_secs: secs_ok(a[2].as_u64().ok_or("hybrid")?)?,
+            interval_secs: secs_ok(parse_big(&a[2])?)?,
         },
         _ => return Err("policy".into()),
     })
@@ -142,7 +154,7 @@ fn parse_policy(j: &Value) -> R<CheckpointPolicy> {
 fn cfg_json(c: &Option<Cfg>) -> Value {
     match c {
         None => Value::Null,
-        Some(c) => json!([c.enabled, policy_json(&c.policy), c.max, c.auto]),
+        Some(c) => json!([c.enabled, policy_json(&c.policy), c.max.map(|m| big_json(m as u64)), c.auto]),
     }
 }
 fn parse_cfg(j: &Value) -> R<Option<Cfg>> {
@@ -153,11 +165,7 @@ fn parse_cfg(j: &Value) -> R<Option<Cfg>> {
     Ok(Some(Cfg {
         enabled: a[0].as_bool().ok_or("enabled")?,
         policy: parse_policy(&a[1])?,
-        max: if a[2].is_null() {
-            None
-        } else {
-            Some(a[2].as_u64().filter(|n| *n < 1 << 40).ok_or("max")? as usize)
-        },
+        max: if a[2].is_null() { None } else { Some(parse_big(&a[2])? as usize) },
         auto: a[3].as_bool().ok_or("auto")?,
     }))
 }
@@ -635,6 +643,152 @@ fn run_case(input: &Value) -> Value {
     out.unwrap_or_else(|_| json!(["invalid"]))
 }
 
+
+// ------------------------------------------------------------------ kind "mgr": the manager directly
+// in = [enabled, policy, max|null, ops]; one real CheckpointManager over a real directory (see the header)
+#[derive(Clone, Debug)]
+enum LastSpec {
+    /// last_checkpoint_time = None
+    Nothing,
+    /// Some(SystemTime::now() + d seconds) (d may be negative)
+    Rel(i64),
+    /// Some(UNIX_EPOCH + s seconds) (s may be negative)
+    Abs(i64),
+}
+#[derive(Clone, Debug)]
+enum MOp {
+    /// should_checkpoint(idx, false, total) and should_checkpoint(idx, true, total) for every idx
+    Calls(usize, Vec<usize>),
+    /// save_checkpoint of a state with this timestamp
+    Save(u64),
+    Last(LastSpec),
+}
+const MGR_PID: &str = "00000000000000aa";
+
+fn signed_json(d: i64) -> Value {
+    json!(d)
+}
+fn mop_json(o: &MOp) -> Value {
+    match o {
+        MOp::Calls(total, idxs) => {
+            json!(["calls", big_json(*total as u64), idxs.iter().map(|i| big_json(*i as u64)).collect::<Vec<_>>()])
+        }
+        MOp::Save(ts) => json!(["save", big_json(*ts)]),
+        MOp::Last(LastSpec::Nothing) => json!(["last", null]),
+        MOp::Last(LastSpec::Rel(d)) => json!(["last", ["rel", signed_json(*d)]]),
+        MOp::Last(LastSpec::Abs(d)) => json!(["last", ["abs", signed_json(*d)]]),
+    }
+}
+fn parse_mop(j: &Value) -> R<MOp> {
+    let a = j.as_array().ok_or("op")?;
+    let tag = a.first().and_then(Value::as_str).ok_or("op tag")?;
+    Ok(match (tag, a.len()) {
+        ("calls", 3) => {
+            let idxs = a[2].as_array().filter(|l| l.len() <= 4096).ok_or("idxs")?;
+            MOp::Calls(parse_big(&a[1])? as usize, idxs.iter().map(|v| parse_big(v).map(|x| x as usize)).collect::<R<_>>()?)
+        }
+        ("save", 2) => MOp::Save(parse_big(&a[1])?),
+        ("last", 2) => {
+            if a[1].is_null() {
+                MOp::Last(LastSpec::Nothing)
+            } else {
+                let l = a[1].as_array().filter(|l| l.len() == 2).ok_or("last")?;
+                let d = l[1].as_i64().filter(|d| d.unsigned_abs() <= 1 << 62).ok_or("last offset")?;
+                match l[0].as_str() {
+                    Some("rel") => MOp::Last(LastSpec::Rel(d)),
+                    Some("abs") => MOp::Last(LastSpec::Abs(d)),
+                    _ => return Err("last".into()),
+                }
+            }
+        }
+        _ => return Err("op".into()),
+    })
+}
+fn mgr_case_json(enabled: bool, policy: &CheckpointPolicy, max: Option<usize>, ops: &[MOp]) -> Value {
+    json!([enabled, policy_json(policy), max.map(|m| big_json(m as u64)), ops.iter().map(mop_json).collect::<Vec<_>>()])
+}
+fn parse_mgr_case(input: &Value) -> R<(bool, CheckpointPolicy, Option<usize>, Vec<MOp>)> {
+    let a = input.as_array().filter(|a| a.len() == 4).ok_or("mgr case")?;
+    let ops: Vec<MOp> = a[3].as_array().filter(|o| o.len() <= 64).ok_or("ops")?.iter().map(parse_mop).collect::<R<_>>()?;
+    Ok((
+        a[0].as_bool().ok_or("enabled")?,
+        parse_policy(&a[1])?,
+        if a[2].is_null() { None } else { Some(parse_big(&a[2])? as usize) },
+        ops,
+    ))
+}
+fn shift(base: std::time::SystemTime, d: i64) -> Option<std::time::SystemTime> {
+    let dur = Duration::from_secs(d.unsigned_abs());
+    if d >= 0 { base.checked_add(dur) } else { base.checked_sub(dur) }
+}
+/// out = ["ok", [per op: [bool, ..] | "ok" | "err" | null], [[file name, size], ..] sorted]
+fn run_mgr(input: &Value) -> Value {
+    let Ok((enabled, policy, max, ops)) = parse_mgr_case(input) else { return json!(["invalid"]) };
+    let base = PathBuf::from(format!("{DIR}/m{}", std::process::id()));
+    let _ = std::fs::remove_dir_all(&base);
+    // the directory exists in every case (a disabled manager does not create it)
+    if std::fs::create_dir_all(&base).is_err() {
+        return json!(["invalid"]);
+    }
+    let res = catch_unwind(AssertUnwindSafe(|| -> R<Value> {
+        let mut mgr = CheckpointManager::new(CheckpointConfig {
+            enabled,
+            directory: base.clone(),
+            policy,
+            auto_recover: false,
+            max_checkpoints: max,
+        })
+        .map_err(|e| e.to_string())?;
+        let mut outs: Vec<Value> = vec![];
+        for (k, op) in ops.iter().enumerate() {
+            match op {
+                MOp::Calls(total, idxs) => {
+                    let mut v = vec![];
+                    for i in idxs {
+                        v.push(mgr.should_checkpoint(*i, false, *total));
+                        v.push(mgr.should_checkpoint(*i, true, *total));
+                    }
+                    outs.push(json!(v));
+                }
+                MOp::Save(ts) => {
+                    let meta = format!("{MGR_PID}:{k}:{ts}:1");
+                    let state = CheckpointState {
+                        pipeline_id: MGR_PID.into(),
+                        completed_node_index: k,
+                        timestamp: *ts,
+                        partition_count: 1,
+                        checksum: compute_checksum(meta.as_bytes()),
+                        exec_mode: "sequential".into(),
+                        metadata: CheckpointMetadata { total_nodes: 1, last_node_type: "Stateless".into(), progress_percent: 0 },
+                    };
+                    outs.push(json!(if mgr.save_checkpoint(&state).is_ok() { "ok" } else { "err" }));
+                }
+                MOp::Last(l) => {
+                    mgr.last_checkpoint_time = match l {
+                        LastSpec::Nothing => None,
+                        LastSpec::Rel(d) => Some(shift(std::time::SystemTime::now(), *d).ok_or("time")?),
+                        LastSpec::Abs(d) => Some(shift(std::time::UNIX_EPOCH, *d).ok_or("time")?),
+                    };
+                    outs.push(Value::Null);
+                }
+            }
+        }
+        let mut files: Vec<(String, u64)> = vec![];
+        for e in std::fs::read_dir(&base).map_err(|e| e.to_string())? {
+            let e = e.map_err(|e| e.to_string())?;
+            files.push((e.file_name().to_str().ok_or("name")?.to_string(), e.metadata().map_err(|e| e.to_string())?.len()));
+        }
+        files.sort();
+        Ok(json!(["ok", outs, files.into_iter().map(|(n, s)| json!([n, s])).collect::<Vec<_>>()]))
+    }));
+    let _ = std::fs::remove_dir_all(&base);
+    match res {
+        Ok(Ok(v)) => v,
+        Ok(Err(_)) => json!(["invalid"]),
+        Err(_) => json!(["panic"]),
+    }
+}
+
 // ------------------------------------------------------------------ worker process
 fn worker_main() {
     std::panic::set_hook(Box::new(|_| {}));
@@ -730,6 +884,7 @@ fn run(kind: &str, input: &Value) -> Value {
             }
             in_worker(input)
         }
+        "mgr" => run_mgr(input),
         _ => json!(["invalid"]),
     }
 }
@@ -817,6 +972,54 @@ fn policies() -> Vec<CheckpointPolicy> {
         Hybrid { barriers: false, interval_secs: 3600 },
     ]
 }
+
+/// interval lengths in seconds: 0, ordinary ones (an hour and more), every power of two from 2^12 with both
+/// neighbours, the places where seconds -> millis / micros / nanos conversions and `SystemTime + interval`
+/// (i64 seconds) overflow, u64::MAX
+fn extreme_secs() -> Vec<u64> {
+    let mut v: Vec<u64> = vec![0, 3600, 3601, 86_400, 31_536_000];
+    for k in 12..64u32 {
+        v.extend([(1u64 << k) - 1, 1u64 << k, (1u64 << k) + 1]);
+    }
+    let i = i64::MAX as u64;
+    v.extend([u64::MAX, u64::MAX - 1, i - 1, i + 2, i - 1_000_000_000, i - 1_700_000_000, i - 2_200_000_000,
+              i - 4_000_000_000]);
+    for d in [1000u64, 1_000_000, 1_000_000_000] {
+        v.extend([u64::MAX / d, u64::MAX / d + 1, i / d, i / d + 1]);
+    }
+    v.sort_unstable();
+    v.dedup();
+    v
+}
+/// counts (EveryNNodes, max_checkpoints, node indices): 0..=20, every power of two from 2^5 with both
+/// neighbours, usize::MAX
+fn extreme_sizes() -> Vec<usize> {
+    let mut v: Vec<usize> = (0..=20).collect();
+    for k in 5..64u32 {
+        v.extend([(1usize << k) - 1, 1usize << k, (1usize << k) + 1]);
+    }
+    v.extend([usize::MAX, usize::MAX - 1]);
+    v.sort_unstable();
+    v.dedup();
+    v
+}
+/// the values most likely to break arithmetic, used in full products
+fn core_secs() -> Vec<u64> {
+    vec![u64::MAX, 1 << 63, i64::MAX as u64, i64::MAX as u64 - 1_000_000_000, u64::MAX / 1000 + 1, 1 << 32, 86_400]
+}
+fn extreme_policies() -> Vec<CheckpointPolicy> {
+    use CheckpointPolicy::*;
+    let mut v = vec![];
+    for s in extreme_secs() {
+        v.push(TimeInterval(s));
+        v.push(Hybrid { barriers: true, interval_secs: s });
+        v.push(Hybrid { barriers: false, interval_secs: s });
+    }
+    for n in extreme_sizes() {
+        v.push(EveryNNodes(n));
+    }
+    v
+}
 const MAXES: [Option<usize>; 4] = [None, Some(0), Some(1), Some(3)];
 const MODES: [Mode; 4] = [Mode::Seq, Mode::Par(3), Mode::Par(1), Mode::Par(0)];
 
@@ -879,10 +1082,46 @@ fn emit(em: &mut Emitter, seeds: &Seeds, runs: &[RunSpec], tags: &[&str]) {
             }
             .into(),
         );
-        t.push(match c.max { None => "max-none".into(), Some(m) => format!("max-{m}") });
+        t.push(match c.max {
+            None => "max-none".into(),
+            Some(m) if m > 1000 => "max-huge".into(),
+            Some(m) => format!("max-{m}"),
+        });
     }
     let tr: Vec<&str> = t.iter().map(String::as_str).collect();
     em.case("hist", case_json(seeds, runs), nontrivial, &tr);
+}
+
+
+/// non-trivial: an enabled manager whose decisions are asked for again after its state changed (a save or a
+/// hand-set last_checkpoint_time), or asked for under a parameter beyond 2^32
+fn emit_mgr(em: &mut Emitter, enabled: bool, pol: &CheckpointPolicy, max: Option<usize>, ops: &[MOp], tags: &[&str]) {
+    let mut changed = false;
+    let mut asked_after = false;
+    for o in ops {
+        match o {
+            MOp::Calls(_, idxs) if !idxs.is_empty() => asked_after |= changed,
+            MOp::Calls(..) => {}
+            _ => changed = true,
+        }
+    }
+    let huge = match pol {
+        CheckpointPolicy::AfterEveryBarrier => false,
+        CheckpointPolicy::EveryNNodes(n) => *n as u64 > 1 << 32,
+        CheckpointPolicy::TimeInterval(s) | CheckpointPolicy::Hybrid { interval_secs: s, .. } => *s > 1 << 32,
+    };
+    let calls = ops.iter().any(|o| matches!(o, MOp::Calls(_, i) if !i.is_empty()));
+    let mut t: Vec<&str> = tags.to_vec();
+    t.push(match pol {
+        CheckpointPolicy::AfterEveryBarrier => "pol-barrier",
+        CheckpointPolicy::EveryNNodes(_) => "pol-every",
+        CheckpointPolicy::TimeInterval(_) => "pol-time",
+        CheckpointPolicy::Hybrid { .. } => "pol-hybrid",
+    });
+    if huge {
+        t.push("huge-param");
+    }
+    em.case("mgr", mgr_case_json(enabled, pol, max, ops), enabled && calls && (asked_after || huge), &t);
 }
 
 fn foreign_seeds(this_runs: &[usize]) -> Seeds {
@@ -977,6 +1216,78 @@ fn generate(seed: u64, tier: Tier, em: &mut Emitter) {
                         }
                     }
                 }
+            }
+        }
+    }
+
+
+    // 1b. EXTREME policy parameters through the real engines: TimeInterval / Hybrid intervals up to
+    //     u64::MAX (the natural "never by time"), EveryNNodes 0 / 1 / .. / usize::MAX, max_checkpoints up to
+    //     usize::MAX, on chains with several barriers, sequentially AND in parallel; the first run dies late
+    //     (its checkpoints stay visible: which node indices were saved is compared with the model), the
+    //     second completes: after the first save every later should_checkpoint call meets the interval
+    {
+        let multi = [1usize, 3, 5, 2];
+        let big_maxes: [Option<usize>; 6] = [Some(usize::MAX), None, Some(1 << 63), Some(2), Some((1 << 32) + 1), Some(0)];
+        let mut vi = 0usize;
+        // the core values x every time variant x three multi-barrier programs x both modes
+        for s in core_secs() {
+            for pol in [
+                CheckpointPolicy::TimeInterval(s),
+                CheckpointPolicy::Hybrid { barriers: true, interval_secs: s },
+                CheckpointPolicy::Hybrid { barriers: false, interval_secs: s },
+            ] {
+                for pi in [1usize, 3, 5] {
+                    for mode in [Mode::Seq, Mode::Par(3)] {
+                        vi += 1;
+                        if quick && mode != Mode::Seq && vi % 3 != 0 {
+                            continue;
+                        }
+                        let (src, steps) = &progs[pi];
+                        let k = [steps.len(), steps.len() - 1, steps.len() / 2][vi % 3];
+                        let c = cfg(pol, big_maxes[vi % 6], vi % 4 != 0);
+                        let first = mk_run(src, steps, Some(k), true, mode, c.clone(), None);
+                        let second = mk_run(src, steps, Some(k), false, mode, c, None);
+                        emit(em, &None, &[first, second], &["policy-extreme"]);
+                    }
+                }
+            }
+        }
+        // every extreme value once (quick: one in four, rotating with the seed), a parallel twin for one in three
+        for (xi, pol) in extreme_policies().into_iter().enumerate() {
+            if quick && (xi + seed as usize) % 4 != 0 {
+                continue;
+            }
+            vi += 1;
+            let (src, steps) = &progs[multi[vi % 4]];
+            let k = [steps.len(), steps.len() - 1, steps.len() / 2][(vi / 4) % 3];
+            let c = cfg(pol, big_maxes[vi % 6], vi % 5 != 0);
+            let first = mk_run(src, steps, Some(k), true, Mode::Seq, c.clone(), None);
+            let second = mk_run(src, steps, Some(k), false, Mode::Seq, c.clone(), None);
+            emit(em, &None, &[first, second], &["policy-extreme"]);
+            if vi % 3 == 0 || !quick {
+                let mode = MODES[1 + vi % 3];
+                let first = mk_run(src, steps, Some(k), true, mode, c.clone(), None);
+                let second = mk_run(src, steps, Some(k), false, mode, c.clone(), None);
+                emit(em, &None, &[first, second], &["policy-extreme"]);
+            }
+            if vi % 7 == 0 {
+                // a single clean run over a directory that already holds files of this pipeline
+                emit(em, &foreign_seeds(&[0]), &[mk_run(src, steps, None, false, Mode::Seq, c, None)], &["policy-extreme"]);
+            }
+        }
+        // huge retention limits under the ordinary policies
+        for (poli, pol) in pols.iter().enumerate() {
+            for (mi, max) in [Some(usize::MAX), Some(usize::MAX - 1), Some(1usize << 63), Some(1 << 32), Some(1 << 31)].iter().enumerate() {
+                if quick && (poli + mi) % 3 != 0 {
+                    continue;
+                }
+                let (src, steps) = &progs[multi[(poli + mi) % 4]];
+                let mode = if (poli + mi) % 2 == 0 { Mode::Seq } else { Mode::Par(2) };
+                let c = cfg(*pol, *max, true);
+                let first = mk_run(src, steps, Some(steps.len()), true, mode, c.clone(), None);
+                let second = mk_run(src, steps, Some(steps.len()), false, mode, c, None);
+                emit(em, &None, &[first, second], &["max-extreme"]);
             }
         }
     }
@@ -1233,6 +1544,7 @@ fn generate(seed: u64, tier: Tier, em: &mut Emitter) {
     // 6. seeded random histories
     let mut rng = seed_mix(seed, 0xC11_0006);
     let count = if quick { 400 } else { 6000 };
+    let extremes = extreme_policies();
     for _ in 0..count {
         let n = gen_len(&mut rng);
         let src = gen_src(&mut rng, n, true, true);
@@ -1260,7 +1572,9 @@ fn generate(seed: u64, tier: Tier, em: &mut Emitter) {
             CheckpointPolicy::EveryNNodes(_) if rng.chance(1, 3) => CheckpointPolicy::EveryNNodes(rng.below(7) as usize),
             p => p,
         };
+        let pol = if rng.chance(1, 4) { *rng.pick(&extremes) } else { pol };
         let max = if rng.chance(1, 4) { Some(rng.below(5) as usize) } else { *rng.pick(&MAXES) };
+        let max = if rng.chance(1, 10) { Some(usize::MAX - rng.below(2) as usize) } else { max };
         let c = cfg(pol, max, rng.chance(5, 6));
         let k = rng.below(steps.len() as u64 + 1) as usize;
         let damage = match rng.below(4) {
@@ -1282,6 +1596,122 @@ fn generate(seed: u64, tier: Tier, em: &mut Emitter) {
             }
             1 => emit(em, &seeds, &[second], &["random", "single"]),
             _ => emit(em, &seeds, &[first, second], &["random"]),
+        }
+    }
+
+    // 7. the manager directly: CheckpointManager::should_checkpoint as a public entry point, in sequences
+    //    with save_checkpoint (which sets last_checkpoint_time) and with the public field set by hand
+    {
+        use CheckpointPolicy::*;
+        let secs = extreme_secs();
+        let sizes = extreme_sizes();
+        let totals = [0usize, 1, 7, usize::MAX];
+        let mut ci = 0usize;
+        // 7a. time policies: EVERY interval x every state of last_checkpoint_time: none, just now, a second
+        //     ago, in the future, the epoch, far past / future, and just short of / just past the interval
+        for s in &secs {
+            for pol in [TimeInterval(*s), Hybrid { barriers: true, interval_secs: *s }, Hybrid { barriers: false, interval_secs: *s }] {
+                ci += 1;
+                let idxs = vec![0usize, 1 + ci % 9, usize::MAX];
+                let total = totals[ci % 4];
+                let mut lasts = vec![
+                    LastSpec::Rel(0), LastSpec::Rel(-1), LastSpec::Rel(3600), LastSpec::Rel(1 << 40), LastSpec::Abs(0),
+                    LastSpec::Abs(-(1 << 62)), LastSpec::Abs(1 << 62), LastSpec::Rel(-1_000_000_000_000),
+                ];
+                if *s >= 3600 && *s - 700 <= 1 << 62 {
+                    lasts.push(LastSpec::Rel(-((*s - 700) as i64)));
+                }
+                if *s <= (1 << 62) - 700 {
+                    lasts.push(LastSpec::Rel(-((*s + 700) as i64)));
+                }
+                let mut ops = vec![MOp::Calls(total, idxs.clone())];
+                for l in lasts {
+                    ops.push(MOp::Last(l));
+                    ops.push(MOp::Calls(total, idxs.clone()));
+                }
+                ops.push(MOp::Last(LastSpec::Nothing));
+                ops.push(MOp::Calls(total, idxs.clone()));
+                ops.push(MOp::Save(1_700_000_000_000 + ci as u64));
+                ops.push(MOp::Calls(total, idxs.clone()));
+                ops.push(MOp::Calls(total, idxs));
+                emit_mgr(em, ci % 11 != 0, &pol, [None, Some(0), Some(1)][ci % 3], &ops, &["mgr-time"]);
+            }
+        }
+        // 7b. EveryNNodes(n) for EVERY n of the size set x node indices: 0..=12, n-1, n, n+1, 2n, 2n+1, 3n, the
+        //     extremes; AfterEveryBarrier likewise
+        let mut pols_n: Vec<CheckpointPolicy> = sizes.iter().map(|n| EveryNNodes(*n)).collect();
+        pols_n.push(AfterEveryBarrier);
+        for pol in pols_n {
+            ci += 1;
+            let n = match pol { EveryNNodes(n) => n, _ => 4 };
+            let mut idxs: Vec<usize> = (0..=12).collect();
+            idxs.extend([Some(n), n.checked_sub(1), n.checked_add(1), n.checked_mul(2), n.checked_mul(2).and_then(|x| x.checked_add(1)),
+                         n.checked_mul(3), n.checked_mul(1 << 20)].into_iter().flatten());
+            idxs.extend([usize::MAX, usize::MAX - 1, 1 << 63, (1 << 63) - 1, 1 << 32, (1 << 32) + 1, 1 << 31]);
+            if !quick {
+                idxs.extend(sizes.iter().copied());
+            }
+            let total = totals[ci % 4];
+            let ops = vec![
+                MOp::Calls(total, idxs.clone()),
+                MOp::Save(1_700_000_000_000 + ci as u64),
+                MOp::Calls(total, idxs.clone()),
+                MOp::Last(LastSpec::Rel(1 << 40)),
+                MOp::Calls(total, idxs),
+            ];
+            emit_mgr(em, ci % 13 != 0, &pol, [None, Some(usize::MAX), Some(0)][ci % 3], &ops, &["mgr-every"]);
+        }
+        // 7c. call sequences as the sequential engine makes them (decide, save when told to, decide again ..) for
+        //     the core intervals / counts x retention limits incl. 0 and usize::MAX; timestamps of the saved
+        //     states ordinary, equal (overwrite), 0 and u64::MAX
+        let mut seq_pols = vec![AfterEveryBarrier, EveryNNodes(0), EveryNNodes(1), EveryNNodes(2), EveryNNodes(usize::MAX)];
+        for s in core_secs().into_iter().chain([0, 3600]) {
+            seq_pols.extend([TimeInterval(s), Hybrid { barriers: true, interval_secs: s }, Hybrid { barriers: false, interval_secs: s }]);
+        }
+        for pol in &seq_pols {
+            for max in [None, Some(0usize), Some(1), Some(2), Some(usize::MAX)] {
+                ci += 1;
+                let ts: Vec<u64> = match ci % 4 {
+                    0 => vec![1_700_000_000_001, 1_700_000_000_002, 1_700_000_000_003, 1_700_000_000_004],
+                    1 => vec![1_700_000_000_005, 1_700_000_000_005, 1_700_000_000_004, 1_700_000_000_005],
+                    2 => vec![0, u64::MAX, 1, u64::MAX - 1],
+                    _ => vec![9, 10, 99, 100],
+                };
+                let mut ops = vec![];
+                for (i, t) in ts.iter().enumerate() {
+                    ops.push(MOp::Calls(ts.len(), vec![i, i + 1]));
+                    ops.push(MOp::Save(*t));
+                }
+                ops.push(MOp::Calls(ts.len(), vec![ts.len(), 0]));
+                emit_mgr(em, true, pol, max, &ops, &["mgr-seq"]);
+            }
+        }
+        // 7d. seeded random scripts
+        let mut rng = seed_mix(seed, 0xC11_0007);
+        let all = extreme_policies();
+        for _ in 0..(if quick { 150 } else { 3000 }) {
+            let pol = if rng.chance(1, 3) { *rng.pick(&seq_pols) } else { *rng.pick(&all) };
+            let max = match rng.below(4) { 0 => None, 1 => Some(*rng.pick(&sizes)), _ => Some(rng.below(4) as usize) };
+            let nops = 1 + rng.below(12) as usize;
+            let mut ops = vec![];
+            for _ in 0..nops {
+                match rng.below(6) {
+                    0 => ops.push(MOp::Save(if rng.chance(1, 5) { *rng.pick(&secs) } else { 1_700_000_000_000 + rng.below(6) })),
+                    1 => ops.push(MOp::Last(match rng.below(6) {
+                        0 => LastSpec::Nothing,
+                        1 => LastSpec::Rel(0),
+                        2 => LastSpec::Rel(-1_000_000_000_000),
+                        3 => LastSpec::Rel(1 << (12 + rng.below(50))),
+                        4 => LastSpec::Abs(0),
+                        _ => LastSpec::Abs(if rng.chance(1, 2) { 1 << 62 } else { -(1 << 62) }),
+                    })),
+                    _ => {
+                        let k = 1 + rng.below(5) as usize;
+                        ops.push(MOp::Calls(*rng.pick(&totals), (0..k).map(|_| if rng.chance(1, 2) { rng.below(24) as usize } else { *rng.pick(&sizes) }).collect()));
+                    }
+                }
+            }
+            emit_mgr(em, rng.chance(9, 10), &pol, max, &ops, &["mgr-random"]);
         }
     }
     shutdown_worker();
